@@ -6,6 +6,7 @@ import (
 	"go/token"
 	"go/types"
 	"math/big"
+	"os"
 	"sort"
 	"strings"
 
@@ -138,7 +139,11 @@ func (e *Enc) resolveName(name string, b *ssa.BasicBlock, idx int, st *State) (e
 		// the location of the candidate must dominate (b, idx)
 		if c.block == b {
 			if c.idx >= idx && c.idx != -1 {
-				continue
+				// a later reference in the same block is fine when it names a phi of
+				// this block (phis are defined at block entry)
+				if ph, ok := c.v.(*ssa.Phi); !ok || ph.Block() != b {
+					continue
+				}
 			}
 		} else if !c.block.Dominates(b) {
 			continue
@@ -241,6 +246,9 @@ func (e *Enc) evalSpec(x SExpr, ctx *specCtx) *Val {
 	case SCall:
 		return e.evalCallSpec(x, ctx)
 	case SUnary:
+		if x.Op == "&" {
+			return e.evalAddrOf(x.X, ctx)
+		}
 		v := e.evalSpec(x.X, ctx)
 		switch x.Op {
 		case "!":
@@ -258,6 +266,21 @@ func (e *Enc) evalSpec(x SExpr, ctx *specCtx) *Val {
 	case SBinary:
 		return e.evalBinarySpec(x, ctx)
 	case SQuant:
+		// forall x :: G ==> (A && B)  is split into two quantifiers: smaller bodies give
+		// the solvers usable triggers
+		if x.Forall {
+			if imp, ok := x.Body.(SBinary); ok && imp.Op == "==>" {
+				if conj, ok := imp.Y.(SBinary); ok && conj.Op == "&&" {
+					a := e.evalSpec(SQuant{Forall: true, Vars: x.Vars, Body: SBinary{"==>", imp.X, conj.X}}, ctx)
+					b := e.evalSpec(SQuant{Forall: true, Vars: x.Vars, Body: SBinary{"==>", imp.X, conj.Y}}, ctx)
+					return mathBool(sAnd(a.L[0], b.L[0]))
+				}
+			} else if conj, ok := x.Body.(SBinary); ok && conj.Op == "&&" {
+				a := e.evalSpec(SQuant{Forall: true, Vars: x.Vars, Body: conj.X}, ctx)
+				b := e.evalSpec(SQuant{Forall: true, Vars: x.Vars, Body: conj.Y}, ctx)
+				return mathBool(sAnd(a.L[0], b.L[0]))
+			}
+		}
 		c2 := ctx
 		var binders []string
 		var guards []string
@@ -281,10 +304,57 @@ func (e *Enc) evalSpec(x SExpr, ctx *specCtx) *Val {
 			q = "exists"
 			bt = sAnd(append(guards, bt)...)
 		}
+		if x.Forall && len(x.Vars) == 1 && os.Getenv("GOVC_NOPATTERNS") == "" {
+			bv := c2.bound[x.Vars[0].Name].L[0]
+			if pats := selectPatterns(bt, bv); len(pats) > 0 {
+				var ps strings.Builder
+				for _, p := range pats {
+					ps.WriteString(" :pattern (" + p + ")")
+				}
+				return mathBool("(" + q + " (" + strings.Join(binders, " ") + ") (! " + bt + ps.String() + " :qid govcspec))")
+			}
+		}
 		return mathBool("(" + q + " (" + strings.Join(binders, " ") + ") " + bt + ")")
 	}
 	e.fail("cannot evaluate spec expression %s", specString(x))
 	return nil
+}
+
+// selectPatterns proposes E-matching triggers for a quantified body: the select
+// terms whose index mentions the bound variable while the array does not.
+func selectPatterns(body, bv string) []string {
+	var out []string
+	seen := map[string]bool{}
+	// scan for "(select " occurrences
+	for i := 0; i+8 <= len(body); i++ {
+		if !strings.HasPrefix(body[i:], "(select ") {
+			continue
+		}
+		end := matchParen(body, i)
+		if end < 0 {
+			continue
+		}
+		term := body[i : end+1]
+		// split args
+		inner := term[len("(select ") : len(term)-1]
+		aEnd := sexprEnd(inner, 0)
+		if aEnd < 0 {
+			continue
+		}
+		arr := strings.TrimSpace(inner[:aEnd])
+		idx := strings.TrimSpace(inner[aEnd:])
+		if strings.Contains(arr, bv) || !strings.Contains(idx, bv) {
+			continue
+		}
+		if strings.Contains(idx, "(ite ") || strings.Contains(idx, "(select ") {
+			continue
+		}
+		if !seen[term] && len(out) < 4 {
+			seen[term] = true
+			out = append(out, term)
+		}
+	}
+	return out
 }
 
 var qvCounter int
@@ -493,6 +563,37 @@ func (e *Enc) loadSpec(ctx *specCtx, p *Val, T types.Type) *Val {
 		v.L = append(v.L, sSel(e.heapGet(st, a.HK), a.Idx...))
 	}
 	return e.annotate(v)
+}
+
+// evalAddrOf: &s[i], &p.f, &x (for addressable variables)
+func (e *Enc) evalAddrOf(x SExpr, ctx *specCtx) *Val {
+	switch x := x.(type) {
+	case SIndex:
+		base := e.evalSpec(x.X, ctx)
+		i := e.evalSpec(x.I, ctx)
+		if sl, ok := base.T.Underlying().(*types.Slice); ok {
+			return &Val{T: types.NewPointer(sl.Elem()), L: []string{base.L[slRef], e.simpAdd(base.L[slOff], i.L[0])}, Root: sl.Elem()}
+		}
+	case SSel:
+		base := e.evalSpec(x.X, ctx)
+		if pt, ok := base.T.Underlying().(*types.Pointer); ok {
+			if stt, ok := pt.Elem().Underlying().(*types.Struct); ok {
+				path, ft := findField(stt, x.Name)
+				if path != nil {
+					p := &Val{T: types.NewPointer(ft), L: base.L, Root: base.Root, Path: append([]Step{}, base.Path...)}
+					if p.Root == nil {
+						p.Root = ptrRoot(pt.Elem())
+					}
+					for _, f := range path {
+						p.Path = append(p.Path, Step{Field: f})
+					}
+					return p
+				}
+			}
+		}
+	}
+	e.fail("cannot take the address of %s in a specification", specString(x))
+	return nil
 }
 
 func (e *Enc) evalSel(x SSel, ctx *specCtx) *Val {
@@ -755,6 +856,9 @@ func (e *Enc) evalBinarySpec(x SBinary, ctx *specCtx) *Val {
 	case "/":
 		return mathInt("(gdiv " + a.L[0] + " " + b.L[0] + ")")
 	case "%":
+		if _, isConst := constOf(b); !isConst && e.ctr != nil && strings.Contains(e.ctr.Opts["abstract"], "mod") {
+			return mathInt("(umod " + a.L[0] + " " + b.L[0] + ")")
+		}
 		return mathInt("(gmod " + a.L[0] + " " + b.L[0] + ")")
 	case "<<":
 		if c, ok := constOf(b); ok && c.IsInt64() {
@@ -1083,10 +1187,42 @@ func (e *Enc) callPureInSpec(x SCall, ctx *specCtx) *Val {
 			e.fail("method call on untyped value")
 		}
 		m := strings.TrimPrefix(x.Fn, ".")
-		fo = lookupMethod(recv.T, m)
-		if fo == nil {
+		// promoted methods: walk the embedded fields first
+		var obj types.Object
+		var index []int
+		for _, tp := range e.candidatePkgs(ctx.pkg, recv.T) {
+			obj, index, _ = types.LookupFieldOrMethod(recv.T, true, tp, m)
+			if obj != nil {
+				break
+			}
+		}
+		f2, ok := obj.(*types.Func)
+		if !ok {
 			e.fail("no method %s on %v", m, recv.T)
 		}
+		fo = f2
+		cur := recv
+		for _, fi := range index[:len(index)-1] {
+			if pt, ok := cur.T.Underlying().(*types.Pointer); ok {
+				stt := pt.Elem().Underlying().(*types.Struct)
+				p := &Val{T: types.NewPointer(stt.Field(fi).Type()), L: cur.L, Root: cur.Root, Path: append(append([]Step{}, cur.Path...), Step{Field: fi})}
+				if p.Root == nil {
+					p.Root = ptrRoot(pt.Elem())
+				}
+				cur = e.loadSpec(ctx, p, stt.Field(fi).Type())
+			} else {
+				cur = e.fieldOf(cur, fi)
+			}
+		}
+		// value receiver reached through a pointer: load it
+		if sigR := fo.Type().(*types.Signature).Recv(); sigR != nil {
+			if _, wantPtr := sigR.Type().(*types.Pointer); !wantPtr {
+				if pt, isPtr := cur.T.Underlying().(*types.Pointer); isPtr && !types.IsInterface(sigR.Type()) {
+					cur = e.loadSpec(ctx, e.annotate(cur), pt.Elem())
+				}
+			}
+		}
+		args[0] = cur
 	} else if x.Recv != nil {
 		id := x.Recv.(SIdent)
 		_, bound := ctx.bound[id.Name]
@@ -1100,6 +1236,12 @@ func (e *Enc) callPureInSpec(x SCall, ctx *specCtx) *Val {
 		}
 		fnName := x.Fn[strings.Index(x.Fn, ".")+1:]
 		obj := e.lookupPkgObject(ctx.pkg, id.Name, fnName)
+		if vo, ok := obj.(*types.Var); ok {
+			// package-level variable of function type
+			if sig, ok := vo.Type().Underlying().(*types.Signature); ok {
+				return e.pureVarCall(vo.Pkg().Path()+"."+vo.Name(), sig, x, ctx)
+			}
+		}
 		f2, ok := obj.(*types.Func)
 		if !ok {
 			e.fail("unknown function %s in spec", x.Fn)
@@ -1133,6 +1275,41 @@ func (e *Enc) callPureInSpec(x SCall, ctx *specCtx) *Val {
 		st = ctx.old
 	}
 	return e.pureApp(e.pureName(ctr, key), e.pureArgs(ctr, args, st), retT)
+}
+
+func (e *Enc) pureVarCall(key string, sig *types.Signature, x SCall, ctx *specCtx) *Val {
+	var args []*Val
+	for _, a := range x.Args {
+		args = append(args, e.evalSpec(a, ctx))
+	}
+	ctr := e.DB.Funcs[key]
+	if ctr == nil || !ctr.Pure {
+		e.fail("function variable %s used in a specification needs a contract declared pure", ShortKey(key))
+	}
+	ctr.UsedExtern = true
+	st := ctx.st
+	if ctx.inOld {
+		st = ctx.old
+	}
+	return e.pureApp(e.pureName(ctr, key), e.pureArgs(ctr, args, st), sigRet(sig))
+}
+
+func (e *Enc) candidatePkgs(pkg string, T types.Type) []*types.Package {
+	var out []*types.Package
+	if p, ok := e.P.Pkgs[pkg]; ok {
+		out = append(out, p.Types)
+	}
+	t := T
+	if pt, ok := t.Underlying().(*types.Pointer); ok {
+		t = pt.Elem()
+	}
+	if n, ok := types.Unalias(t).(*types.Named); ok && n.Obj().Pkg() != nil {
+		out = append(out, n.Obj().Pkg())
+	}
+	if e.fn != nil && e.fn.Pkg != nil {
+		out = append(out, e.fn.Pkg.Pkg)
+	}
+	return out
 }
 
 func lookupMethod(T types.Type, m string) *types.Func {
